@@ -141,11 +141,21 @@ static Call make_call(Rng& g)
 		unsigned sample = (unsigned)g.range(0, 30), thin = (unsigned)g.range(1, 6), burn = (unsigned)g.range(0, 20);
 		bool bounded = g.coin();
 		double sig = g.logu(0.2, 3.0), lo = g.uni(-3, 0), hi = g.uni(0.5, 3);
+		// target: 0 smooth and positive everywhere; 1 compact support inside the domain (zero density at most starting points);
+		// 2 a narrow peak whose tails underflow to zero
+		int pv = (int)g.range(0, 2);
+		double pc = lo + (hi - lo) * g.uni(0.3, 0.7), pw = (hi - lo) * g.uni(0.05, 0.2);
 		C.fn = "Metropolis";
-		p << sample << "/" << thin << "/" << burn << "/" << bounded << hexbits(sig) << hexbits(lo) << hexbits(hi);
+		p << sample << "/" << thin << "/" << burn << "/" << bounded << hexbits(sig) << hexbits(lo) << hexbits(hi) << "/" << pv << hexbits(pc) << hexbits(pw);
 		C.nreq = (int)sample;
 		C.run  = [=](std::mt19937& G) {
-			 std::function<double(double)> pdf = [](double x) { return std::exp(-0.5 * x * x) + 0.3 * std::exp(-2.0 * (x - 1.5) * (x - 1.5)); };
+			 std::function<double(double)> pdf = [=](double x) {
+				 if(pv == 1)
+					 return std::max(0.0, 1.0 - std::fabs(x - pc) / pw);
+				 if(pv == 2)
+					 return std::exp(-0.5 * (x - pc) * (x - pc) / (1e-4 * pw * pw));
+				 return std::exp(-0.5 * x * x) + 0.3 * std::exp(-2.0 * (x - 1.5) * (x - 1.5));
+			 };
 			 return Sample_Metropolis(G, pdf, sig, sample, thin, burn, bounded ? std::vector<double>{lo, hi} : std::vector<double>{});
 		};
 		C.insup = [=](const std::vector<double>& v) { for(double x : v) if(!std::isfinite(x) || (bounded && (x < lo || x > hi))) return false; return true; };
@@ -155,12 +165,17 @@ static Call make_call(Rng& g)
 		unsigned sample = (unsigned)g.range(0, 20), thin = (unsigned)g.range(1, 5), burn = (unsigned)g.range(0, 15);
 		bool bounded = g.coin();
 		double s1 = g.logu(0.2, 3.0), s2 = g.logu(0.2, 3.0);
+		int pv = (int)g.range(0, 1);	// 1: compact support (a disc of radius 0.4 around (0.5, 0.3)) inside the domain
 		C.fn = "Metropolis2D";
-		p << sample << "/" << thin << "/" << burn << "/" << bounded << hexbits(s1) << hexbits(s2);
+		p << sample << "/" << thin << "/" << burn << "/" << bounded << hexbits(s1) << hexbits(s2) << "/" << pv;
 		C.nreq = (int)sample;
 		C.per  = 2;
 		C.run  = [=](std::mt19937& G) {
-			 std::function<double(double, double)> pdf = [](double x, double y) { return std::exp(-0.5 * (x * x + (y - 0.5) * (y - 0.5) / 0.25)); };
+			 std::function<double(double, double)> pdf = [=](double x, double y) {
+				 if(pv == 1)
+					 return std::max(0.0, 0.16 - (x - 0.5) * (x - 0.5) - (y - 0.3) * (y - 0.3));
+				 return std::exp(-0.5 * (x * x + (y - 0.5) * (y - 0.5) / 0.25));
+			 };
 			 auto r = Sample_Metropolis_2D(G, pdf, {s1, s2}, sample, thin, burn, bounded ? std::vector<double>{-2, 2, -1, 2} : std::vector<double>{});
 			 std::vector<double> o;
 			 for(auto& q : r)
